@@ -320,11 +320,22 @@ def main():
         else:
             raise SystemExit("unknown argument " + a[0])
     seed = int(os.environ.get("VERIF_SEED", "1"))
+    replay_obj = None
+    if replay:
+        # a replay re-creates the run that found the violation: same seed and tier, so that the same generated stream
+        # (which contains the failing case) is produced again; a codec case is additionally run first, on its own
+        try:
+            replay_obj = json.load(open(replay))
+            seed = int(replay_obj.get("seed", seed))
+            tier = replay_obj.get("tier", tier)
+        except Exception as e:
+            raise SystemExit("cannot read replay file %s: %s" % (replay, e))
     checks = load_checks()
     if pid not in checks:
         raise SystemExit("no check for " + pid)
     ctx = Ctx(pid, tier, seed)
     ctx.replay_file = replay
+    ctx.replay_obj = replay_obj
     rc = checks[pid](ctx)
     return rc
 
